@@ -1,6 +1,7 @@
 """C06 - every input record becomes exactly one item, in order, unaltered (Engine A layers)."""
 import json
 import os
+import sys
 import re
 from concurrent.futures import ThreadPoolExecutor
 
@@ -114,6 +115,20 @@ def run(c, replay):
                       "scaled buffer constants exercise the same code as the real ones (textual replacement of the initialisers in constants.go)",
                       "header-lines diversion and the Run() item builder are process-level and checked by the CLI layer, not here"]
     run_sequential(c, b, bs)
+    layer_reader_schedules(c)
+    sys.path.insert(0, os.path.dirname(os.path.abspath(__file__)))
+    import cli_layers
+    cli_layers.layer_c06_cli(c)
+
+
+def layer_reader_schedules(c, replay=None):
+    """Reader.feed || its event poller || a snapshotting consumer under every schedule (Engine B)"""
+    import schedlib
+    b, info = schedlib.build(c, ["harness/fzf/sched_common.go", "harness/fzf/c13.go", "harness/fzf/c06b.go"], chunk_size=4, out="hs.test")
+    c.bounds["reader_schedules"] = dict(deviation_bound=c.pick(3, 4), **info)
+    c.run_layer(b, "TestVerif_C06_reader_schedules", "reader-schedules", deadline_s=c.pick(120, 900), replay=replay, mem_mb=8000,
+                rule="Reader.feed over 2-3 reads || startEventPoller || consumer snapshotting on EvtReadNew/EvtReadFin, every schedule with at most B deviations: every snapshot is a "
+                     "prefix of the stream, the snapshot at EvtReadFin holds every record, no deadlock")
 
 
 def run_sequential(c, b, bs):
